@@ -209,6 +209,12 @@ fn support(name: &str, spdc0: &SPDC, rng: &mut Rng, n: usize, integ: Integrator)
   let mut nothr = spdc.clone();
   nothr.pump_spectrum_threshold = 0.0;
   let jsn = JointSpectrum::new(nothr.clone(), integ);
+  // far from the centre but inside every transmission window: pairs on the pump's anti-diagonal, threshold off
+  for dlt in [-0.08, -0.03, 0.03, 0.08] {
+    let a = s0 * (1.0 + dlt);
+    observe_point(name, "wide_in", &nothr, &jsn, a, wp - a, integ, true);
+    observe_point(name, "wide_in", &nothr, &jsn, a, i0, integ, true);
+  }
   let h = 0.5 * wp;
   let pts: Vec<(&str, f64, f64, bool)> = vec![
     ("ws=wp", wp, h, true),
@@ -312,7 +318,36 @@ fn rates(spdc: &SPDC, res: usize, integ: Integrator) -> Result<Value, String> {
     let e = sp.efficiencies(g, integ);
     let schmidt = js.schmidt_number(g).ok();
     let hom = sp.hom_visibility(g, integ);
+    // every range accessor (the pointwise ones are below) and the sweep iterator
+    let cxs = |v: Vec<Complex<f64>>| -> Value { Value::Array(v.iter().flat_map(|z| vec![fx(z.re), fx(z.im)]).collect()) };
+    let jsu = |v: Vec<JSIUnits<f64>>| -> Value { Value::Array(v.iter().map(|x| fx(x.value_unsafe)).collect()) };
+    let delays = spdcalc::utils::Steps(hom.0 - 3e-13 * S, hom.0 + 3e-13 * S, 5);
+    let jsa_values = js.jsa_range(g);
+    let jsa_swapped: Vec<Complex<f64>> = g.as_steps().into_iter().map(|(a, b)| js.jsa(b, a)).collect();
+    let hom_series_fn = hom_rate_series(g, &jsa_values, &jsa_swapped, delays);
+    let hom_series_method = sp.hom_rate_series(delays, g, integ);
+    let hom_single = hom_rate(g, &jsa_values, &jsa_swapped, hom.0 + 1e-13 * S, None);
+    let two_self = sp.hom_two_source_visibilities(g, integ);
+    let two_self_rates = sp.hom_two_source_rate_series(spdcalc::utils::Steps(-1e-13 * S, 1e-13 * S, 3), g, integ);
+    let wsu = *(sp.signal.waist().x / (1e-6 * M));
+    let lum = *(sp.crystal_setup.length / (1e-6 * M));
+    let sweep_steps = spdcalc::utils::Steps2D((0.8 * wsu, 1.3 * wsu, 3).into(), (0.7 * lum, 1.2 * lum, 2).into());
+    let sweep_n = SPDCIter::try_new(sp.clone(), "signal.waist_um", "crystal.length_um", sweep_steps).map(|it| it.jsi_values_normalized(integ)).unwrap_or_default();
+    let sweep_r = SPDCIter::try_new(sp.clone(), "signal.waist_um", "crystal.length_um", sweep_steps).map(|it| it.jsi_values(integ)).unwrap_or_default();
+    let ranges = json!({
+      "lin": {"jsi_range": jsu(js.jsi_range(g)), "jsi_singles_range": jsu(js.jsi_singles_range(g)),
+              "jsi_singles_idler_range": jsu(js.jsi_singles_idler_range(g)), "sweep_jsi_values": fxs(&sweep_r)},
+      "amp": {"jsa_range": cxs(jsa_values.clone())},
+      "inv": {"jsa_normalized_range": cxs(js.jsa_normalized_range(g)), "jsi_normalized_range": fxs(&js.jsi_normalized_range(g)),
+              "jsi_singles_normalized_range": fxs(&js.jsi_singles_normalized_range(g)),
+              "jsi_singles_idler_normalized_range": fxs(&js.jsi_singles_idler_normalized_range(g)),
+              "sweep_jsi_values_normalized": fxs(&sweep_n),
+              "hom_rate_series": fxs(&hom_series_fn), "SPDC::hom_rate_series": fxs(&hom_series_method), "hom_rate": fxs(&[hom_single]),
+              "two_source_self_visibilities": fxs(&[two_self.ss.1, two_self.ii.1, two_self.si.1]),
+              "two_source_self_rates_ss": fxs(&two_self_rates.ss), "two_source_self_rates_ii": fxs(&two_self_rates.ii),
+              "two_source_self_rates_si": fxs(&two_self_rates.si)}});
     json!({
+      "ranges": ranges,
       "power": fx(sp.pump_average_power.value_unsafe), "deff": fx(sp.deff.value_unsafe),
       "jsa_raw": cx(jsa_raw(p.0, p.1, &sp, integ)), "jsi_singles_raw": fx(jsi_singles_raw(p.0, p.1, &sp, integ)),
       "alpha": fx(pump_spectral_amplitude(p.0 + p.1, &sp)),
